@@ -194,7 +194,7 @@ def _mk():
                 return True
             if short in ("Module",) and v.cls is not None and it.is_subclass_of_ext(v.cls, "Module"):
                 return True
-            if v.term is not None and v.term.op in ("attr", "param"):
+            if v.term is not None and v.term.op in ("attr", "param") and v.open_attrs:
                 return None
             return False
         if isinstance(v, bool):
@@ -223,6 +223,14 @@ def _mk():
             return short == "NoneType"
         if isinstance(v, (FuncV,)):
             return short in ("FunctionType", "Callable")
+        if isinstance(v, ExtV):
+            from .extlib import is_builtin_ext
+
+            if short == "BuiltinFunctionType":
+                return is_builtin_ext(v.name)
+            if short == "FunctionType":
+                return not is_builtin_ext(v.name)
+            return None
         if isinstance(v, Unknown):
             return None
         return False
